@@ -172,6 +172,7 @@ def _g2(ctx, rid, roots, tag, title):
     r.analysed["functions_with_sites"] = len(inv)
     nsites = 0
     kinds = {}
+    guards_seen = {}
     g.parent = parent
     for p, kds in sorted(inv.items()):
         fa = al.get(p, {})
@@ -183,17 +184,31 @@ def _g2(ctx, rid, roots, tag, title):
             if kd in classes:
                 entry = {"count": len(sites), "reason": classes[kd]}
                 allowed = len(sites)
+            void = None
+            if entry and entry.get("requires"):
+                for gname in entry["requires"]:
+                    gk = ("guard", gname, p if gname == "range-end-clamped" else "")
+                    if gk not in ctx.memo:
+                        ctx.memo[gk] = GUARDS[gname](ctx, F.fns[p]) if gname in GUARDS else (False, "unknown guard " + gname)
+                    ok, gwhy = ctx.memo[gk]
+                    guards_seen[gname] = guards_seen.get(gname, 0) + 1
+                    if not ok:
+                        void = "%s: %s" % (gname, gwhy)
+                if void:
+                    allowed = 0
             for i, (where, text) in enumerate(sites):
                 r.examine((p, kd, i), kd not in classes, {"fn": p, "site": kd, "where": where, "allowed": bool(entry)} if i == 0 else None)
             if len(sites) > allowed:
                 path = g.path_to(p, set(roots))
                 r.finding(p, "%s|n=%d" % (kd, len(sites)), sites[0][0],
-                          "%d panic-capable site(s) of kind %s (%s) at %s; reviewed allow-list covers %d%s" % (
+                          "%d panic-capable site(s) of kind %s (%s) at %s; reviewed allow-list covers %d%s%s" % (
                               len(sites), kd, sites[0][1], ", ".join(w for w, _t in sites), allowed,
-                              (" (" + entry["reason"] + ")") if entry else ""),
+                              (" (" + entry["reason"] + ")") if entry else "",
+                              ("; the allowance is VOID because its guard failed - " + void) if void else ""),
                           path=["call path: " + " -> ".join(path)])
     r.analysed["sites"] = nsites
     r.analysed["by_kind"] = kinds
+    r.analysed["guards_evaluated"] = {k: {"entries": v, "holds": bool(ctx.memo.get(("guard", k, ""), (True,))[0])} for k, v in guards_seen.items()}
     # stale allow entries are information only
     for p, fa in al.items():
         if p.startswith("_"):
@@ -279,3 +294,127 @@ def rule_G1r(ctx):
     r = _g1(ctx, "G1r", run, "no-unbounded-recursion (run set): every recursive cycle reachable from the instruction functions is allow-listed with its depth bound")
     r.floor("functions reachable from the run entry points", r.analysed["reachable_functions"], 450)
     return r
+
+
+# --------------------------------------------------------------------------------------- guards
+# An allow-list entry may name guards: mechanisms its stated reason relies on.  A guard is re-derived from the current
+# tree on every run; when it no longer holds the allowance is void and the sites are reported.
+
+from . import hirq as _hq  # noqa: E402
+from .facts import walk as _walk  # noqa: E402
+from .origin import Body as _Body  # noqa: E402
+
+
+def guard_build_links_validated(ctx, f):
+    """build() rejects a tree whose root or child links leave the node list before any handler runs."""
+    F = ctx.F
+    cands = [g for g in F.fns.values() if g["crate"] == f["crate"] and g.get("name") == "build" and g.get("vis") == "Public" and "::build::" in g["path"]]
+    if not cands:
+        return False, "public build() not found"
+    b = cands[0]
+    body = _Body(b)
+    for n in _walk(b["hir"]):
+        if n.get("k") != "If":
+            continue
+        cond = n["cond"]
+        root_cmp = False
+        links = set()
+        for m in _walk(cond):
+            if m.get("k") == "Binary" and m.get("op") in (">=", ">", "<", "<="):
+                names = set()
+                for side in ("l", "r"):
+                    for o in body.origins(m[side]):
+                        if o.get("k") == "Param":
+                            names.add("param%d" % o["index"])
+                        if o.get("k") == "MethodCall" and o.get("m") == "len":
+                            names.add("len")
+                if "param0" in names and "len" in names:
+                    root_cmp = True
+            if m.get("k") == "MethodCall" and m.get("m") in ("get_left", "get_right"):
+                links.add(m["m"])
+        errs = any((_hq.callee(x) or "").endswith("::Err") for x in _walk(n["then"]) if x.get("k") == "Call")
+        if root_cmp and links == {"get_left", "get_right"} and errs:
+            return True, "build() checks parse_root and every get_left()/get_right() against parse_tree.len() and returns Err (%s)" % loc(n)
+    return False, "build() no longer validates parse_root and the left/right links against parse_tree.len() before walking the tree"
+
+
+def guard_lexer_whitespace_ascii(ctx, f):
+    """The lexer's whitespace buffers hold one-byte characters only: no Unicode-aware whitespace predicate routes a
+    character into the Spaces / Subexpression states."""
+    F = ctx.F
+    bad = []
+    good = 0
+    for g in F.fns.values():
+        if g["crate"] != "garnish_lang_compiler" or "Lexer" not in g.get("impl_self", "") or g["kind"] == "Closure":
+            continue
+        for d, n in _hq.calls_in(g["hir"]):
+            if d == "core::char::methods::<impl char>::is_whitespace":
+                bad.append(loc(n))
+            if d == "core::char::methods::<impl char>::is_ascii_whitespace":
+                good += 1
+    if bad:
+        return False, "the lexer classifies characters with char::is_whitespace (%s): multi-byte whitespace can enter the buffers that are sliced by byte arithmetic" % ", ".join(bad)
+    if not good:
+        return False, "no is_ascii_whitespace classification found in the lexer"
+    return True, "whitespace classification uses is_ascii_whitespace / ASCII literals only"
+
+
+def _range_end_clamped(F, g, depth=0):
+    """Every Range-typed index of a Vec/slice in g has an end whose origins include `.max(<start>)`; (start, end) pairs taken
+    from a helper are checked in the helper."""
+    body = _Body(g)
+    ok_all = True
+    n_sites = 0
+    why = []
+    for n in _walk(g["hir"]):
+        if n.get("k") != "Index":
+            continue
+        idx = _hq.peel(n["idx"])
+        rng = None
+        if idx.get("k") == "Struct" and (idx.get("def") or "").startswith("core::ops::range::Range"):
+            rng = idx
+        if rng is None:
+            continue
+        fields = {fl["name"]: fl["e"] for fl in rng["fields"]}
+        if "start" not in fields or "end" not in fields:
+            continue
+        n_sites += 1
+        start_l = _hq.local_of(fields["start"])
+        clamped = False
+        # direct: end local defined through .max(start)
+        end_e = fields["end"]
+        for d in ([end_e] + [x for x in body.defs.get(_hq.local_of(end_e), []) if isinstance(x, dict)]):
+            for m in _walk(d):
+                if m.get("k") == "MethodCall" and m.get("m") == "max" and m["args"]:
+                    if _hq.local_of(m["args"][0]) == start_l or start_l is None:
+                        clamped = True
+        if not clamped:
+            # (start, end) destructured from a helper call: check the helper returns a clamped pair
+            for d in body.defs.get(_hq.local_of(end_e), []):
+                if isinstance(d, dict) and d.get("k") == "Destructure":
+                    cd = _hq.callee(d["of"])
+                    h = F.fns.get(cd) if cd else None
+                    if h is not None and depth < 2:
+                        for m in _walk(h["hir"]):
+                            if m.get("k") == "MethodCall" and m.get("m") == "max":
+                                clamped = True
+        if not clamped:
+            ok_all = False
+            why.append(loc(n))
+    return ok_all and n_sites > 0, why, n_sites
+
+
+def guard_range_end_clamped(ctx, f):
+    ok, why, n = _range_end_clamped(ctx.F, f)
+    if ok:
+        return True, "%d range slice(s): the end is clamped with .max(start)" % n
+    if n == 0:
+        return False, "no range slice found in this function (guard cannot be evaluated)"
+    return False, "range slice at %s: the end is not clamped to the start (`.max(start)`), reversed extents would panic" % ", ".join(why)
+
+
+GUARDS = {
+    "build-links-validated": guard_build_links_validated,
+    "lexer-whitespace-ascii": guard_lexer_whitespace_ascii,
+    "range-end-clamped": guard_range_end_clamped,
+}
